@@ -58,7 +58,13 @@ def r1(ctx, cfg):
         mk = q.calls(f, "api::MockApiBech::addr_make")
         ok = len(news) == 1 and len(mk) == 1
         d = "?"
-        if ok:
+        ft = q.forward_target(F, P, f)
+        if not pfx and ft is not None and ft[0].key == key + "_with_prefix":
+            # `self.into_bech32_with_prefix(DEFAULT_PREFIX)`: the sibling (checked with its own prefix parameter) does the work
+            a = ft[1]
+            d = "%s(%s)" % (ft[0].key, ", ".join(fmt(x) for x in a))
+            ok = len(a) == 2 and is_param(a[0], "self") and peel(a[1]) == ("item", "addresses::DEFAULT_PREFIX")
+        elif ok:
             nb, nt = news[0]
             a = P.call_args(f, nt, nb)
             d = "MockApiBech::<%s>::new(%s)" % (nt["callee"]["gargs"], fmt(a[0]))
